@@ -499,4 +499,87 @@ theorem encCallA_sim (p : Params) (hp : p.Valid) (i : Nat) (r : Run) (c : ACall)
             ⟨_, q3, evs3, by simp, j2.pushed0 m2, j3, j4, j5⟩, hgo e3 k3 k4⟩
           simp only [encCallA, encodeRead, hro, encodeAnchored, hab, k1, pushAnchorOf, hl0, if_false, m1, Option.map_some]
 
+theorem ainputOf_cons (c : ACall) (t : List ACall) : ainputOf (c :: t) = ainputOf [c] ++ ainputOf t := by
+  cases c <;> simp [ainputOf, apieces]
+
+theorem ainputOf_call (calls : List Call) : ainputOf (calls.map .call) = inputOf calls := by
+  simp [ainputOf, inputOf, apieces_call]
+
+theorem encCallsA_sim (p : Params) (hp : p.Valid) (i : Nat) (calls : List ACall) :
+    ∀ (r : Run) (input : List UInt8) (acc : List Emit), RunInv p i r input acc →
+    ∃ r' acc', encCallsA p i r calls = some r' ∧ RunInv p i r' (input ++ ainputOf calls) acc' ∧
+      Enc.runPieces.go p (apieces calls) r.e.st r.e.nid acc = Enc.runPieces.go p [] r'.e.st r'.e.nid acc' := by
+  induction calls with
+  | nil =>
+    intro r input acc h
+    exact ⟨r, acc, rfl, by simpa [ainputOf, apieces] using h, rfl⟩
+  | cons c t ih =>
+    intro r input acc h
+    obtain ⟨r1, acc1, h1, h2, h3⟩ := encCallA_sim p hp i r c input acc h
+    obtain ⟨r2, acc2, k1, k2, k3⟩ := ih r1 _ acc1 h2
+    refine ⟨r2, acc2, by simp [encCallsA, h1, k1], ?_, (h3 t).trans k3⟩
+    rw [ainputOf_cons, ← List.append_assoc]; exact k2
+
+/-- `Encoder::new` followed by any calls (all input methods): never panics; the invariant holds
+between calls. -/
+theorem encPrefixA_inv (p : Params) (hp : p.Valid) (pol : Policy) (tun : Tuning) (calls : List ACall) :
+    ∃ r acc, encPrefixA p pol tun calls = some r ∧ RunInv p 0 r (ainputOf calls) acc ∧
+      Enc.runPieces p (apieces calls) = acc ++ Enc.finish p r.e.st := by
+  obtain ⟨w1, e1, h1, h2, h3, h4⟩ := encInit_sim p pol tun
+  obtain ⟨r, acc, k1, k2, k3⟩ := encCallsA_sim p hp 0 calls ⟨w1, e1, []⟩ [] _ h2
+  refine ⟨r, acc, by simp only [encPrefixA, h1, k1], by simpa using k2, ?_⟩
+  simp only at k3
+  rw [h3, h4] at k3
+  exact k3
+
+/-- The whole run, all input methods. -/
+theorem encRunA_sim (p : Params) (hp : p.Valid) (pol : Policy) (tun : Tuning) (calls : List ACall) :
+    ∃ w' v' dr evs, encRunA p pol tun calls = some (w', dr) ∧ w'.iov 0 = some v' ∧ IovInv w' v' ∧
+      prodOps evs = (Enc.runPieces p (apieces calls)).map (·.op) ∧
+      absCells w' v' = (runEv Woodpile.Pipe.empty evs).cells ∧
+      dr = (runEv Woodpile.Pipe.empty evs).consumed ∧
+      v'.hasPending = false ∧ dr ++ w'.flat v'.slices = Spec.encode p (ainputOf calls) ∧
+      w'.visible v' = w'.flat v'.slices := by
+  obtain ⟨r, acc, h1, h2, h3⟩ := encPrefixA_inv p hp pol tun calls
+  obtain ⟨w', v', evs, k1, k2, k3, k4, k5, k6, k7, k8, k9⟩ := encFinish_sim p hp 0 r _ acc h2
+  refine ⟨w', v', r.drained, evs, ?_, k2, k3, by rw [h3]; exact k4, k5, k6, k7, k8, k9⟩
+  simp only [encRunA, h1, k1, Option.map_some]
+
+/-- Structural lag of the encoder between calls, all input methods (as `enc_lag_struct`). -/
+theorem enc_lag_structA (p : Params) (hp : p.Valid) (pol : Policy) (tun : Tuning) (calls : List ACall) :
+    ∃ r v e s c, encPrefixA p pol tun calls = some r ∧ r.w.iov 0 = some v ∧ IovInv r.w v ∧
+      e ∈ v.backrefs ∧ e.2.len = r.e.st.brLen ∧
+      v.slices[e.2.sliceIndex - v.consumedSlices]? = some s ∧ s.region = .chunk c ∧
+      e.2.begin + r.e.st.brLen ≤ s.len ∧
+      v.totalSize - (r.w.visible v).length = e.2.begin + r.e.st.brLen + r.e.st.cur ∧
+      1 ≤ r.e.st.brLen ∧ r.e.st.brLen ≤ 2 ∧
+      r.e.st.cur + (if r.e.st.mid then 1 else 0) < r.e.st.maxChunk ∧
+      (r.e.st.maxChunk = p.maxInit ∨ r.e.st.maxChunk = p.maxSub) := by
+  obtain ⟨r, acc, h1, ⟨v, q, evs, hv, hsim, _, _, hrel⟩, _⟩ := encPrefixA_inv p hp pol tun calls
+  obtain ⟨hi1, _⟩ := fold_init_inv p hp (ainputOf calls)
+  generalize (ainputOf calls).foldl (byteStep p) BS.init = σ at hrel hi1
+  obtain ⟨hmax, hcur, hmid, hbr, hnid, hq⟩ := hrel
+  have hk : 1 ≤ r.e.st.brLen ∧ r.e.st.brLen ≤ 2 := by cases hf : σ.first <;> simp [hbr, hf]
+  have hcells := cells_of_total_pipeOf q σ.done σ.body r.e.st.brLen r.e.st.backref hk.1 hq
+  have hm : Cell.hole r.e.st.backref ∈ q.cells := by
+    rw [hcells]
+    simp only [List.mem_append, List.mem_replicate]
+    exact Or.inl (Or.inr ⟨by omega, trivial⟩)
+  obtain ⟨e, _, he, hek, hel⟩ := hsim.token _ hm
+  have hcnt : q.cells.count (Cell.hole r.e.st.backref) = r.e.st.brLen := by
+    rw [← count_hole_total, hq, count_hole_pipeOf]
+  have habs : absCells r.w v = (σ.done.drop q.consumed.length).map Cell.byte ++
+      List.replicate r.e.st.brLen (Cell.hole (tokKey r.e.toks r.e.st.backref)) ++ σ.body.map Cell.byte := by
+    rw [hsim.cells, hcells, List.map_append, List.map_append, rename_map_byte, rename_map_byte,
+      rename_replicate_hole]
+  obtain ⟨g1, s, c, g2, g3, g4⟩ := lag_of_single_hole hsim.inv _ _ _ _ hk.1 habs e he hek (by rw [hel, hcnt])
+  have hinv' : σ.eff.length < Spec.limit p σ.first := hi1
+  have hM : σ.M p = Spec.limit p σ.first := rfl
+  rw [BS.eff_length, ← hmid, ← hcur] at hinv'
+  refine ⟨r, v, e, s, c, h1, hv, hsim.inv, he, by rw [hel, hcnt], g2, g3, g4, ?_, hk.1, hk.2, by omega, ?_⟩
+  · rw [g1, hcur]
+  · cases hf : σ.first
+    · right; rw [hmax, hM, hf]; rfl
+    · left; rw [hmax, hM, hf]; rfl
+
 end Woodpile.EncWorld
